@@ -39,8 +39,9 @@ def c_val2bytes(T):
     L = T[0]
     q = H + "val2bytes"
     if T == "CH":
-        return Contract(q, params={"val": list_of_text_kind(), "att": ("const", T)}, returns="bytes",
-                        ensures=[("any", "True")], raises={}, notes="CH: opaque text")
+        return Contract(q, params={"val": any_text, "att": ("const", T)}, returns="bytes",
+                        ensures=[("encoded-text", "result == text_encode(val)")], raises={}, modifies=[],
+                        notes="CH: text, encoded with the library's text codec")
     if L in INT_LETTERS:
         lo, hi = int_range(T)
         dec = "s_le" if L == "I" else "u_le"
@@ -75,13 +76,22 @@ def list_of_text_kind():
     return "bytes"
 
 
+def any_text(ex, name):
+    from pvc.values import SStr, Opaque
+    return SStr((Opaque("any-text"),))
+
+
+any_text.native = lambda v: v if isinstance(v, str) else "caf\u00e9 \u20ac x"
+any_text.native_candidates = ["", "x", "caf\u00e9", "\u20ac\u00ff", "a\x00"]
+
+
 def c_bytes2val(T):
     n = tsize(T)
     L = T[0]
     q = H + "bytes2val"
     if T == "CH":
         return Contract(q, params={"valb": "bytes", "att": ("const", T)}, returns="str",
-                        ensures=[("any", "True")], raises={}, modifies=[])
+                        ensures=[("decoded-text", "result == text_decode(valb)")], raises={}, modifies=[])
     if L in INT_LETTERS:
         dec = "s_le" if L == "I" else "u_le"
         return Contract(q, params={"valb": "bytes", "att": ("const", T)}, returns="int",
